@@ -17,7 +17,9 @@ Space (each part is enumerated completely; quick / thorough):
   D one format (2 names, 2 options, 2 / 3 arguments) split between base format and format in all 36 / 48 ways;
   E odd but legal names (case-sensitive shorts, `cmd11` argument, names equal to values) + the VERIF_SEED value;
   T all 64 ordered triples of the short-named structural kinds (thorough: all 512 triples of the 8 kinds, and the 64 in a
-    context with a command name and a multi-valued argument).
+    context with a command name and a multi-valued argument);
+  S all 7 positional word shapes (plain, -N, --foo, -f, '', `--`, '-') at every position of [required, multi] and [multi]
+    arguments (multi-values up to 2 / 3 long): what may stand behind the `--` separator, including a second `--`.
 (`--tier smoke` is a development aid, not a claimed bound.)
 
 Demanded (statement): arguments(False)/options(False) are exactly the given elements ("nothing else set");
@@ -159,6 +161,12 @@ def parts(tier, seed=0):
         for ks in itertools.product(SHORTED, repeat=3):
             t.append((G.mk_spec(G.NAMES1, list(ks), [R, M]), dict(dom_n=1, arg_dom_n=1, multi_len=1, arg_multi_len=1)))
     P.append(("T:option-triples", t))
+
+    # S: the whole positional word domain (option-looking words, the empty word, a lone dash and a second `--`: all legal
+    # behind the separator) in every position of a required + multi-valued argument pair and of a lone multi-valued one
+    s = [(G.mk_spec(G.NAMES0, [G.opt_kind("flag")], [R, M]), dict(dom_n=1, arg_dom_n=7, multi_len=1, arg_multi_len=2)),
+         (G.mk_spec(G.NAMES1, [], [M]), dict(dom_n=1, arg_dom_n=7, multi_len=1, arg_multi_len=2 if q else 3))]
+    P.append(("S:separator-tail-words", s))
     return P
 
 
